@@ -26,8 +26,6 @@ var reviewedDetSites = map[string]string{
 	"DET:(*check.AllProject).getVarInfoMapStr:loop2(map):keyed-write#2":   "same merge: first insertion of a key; all candidates for a key of one kind are the same string",
 	"DET:check.getVarInfoExpandStrHover:loop1(map):keyed-write":            "same priority merge as getVarInfoMapStr (needReplaceMapStr looks at the old string and the new kind only)",
 	"DET:check.getVarInfoExpandStrHover:loop1(map):keyed-write#2":          "same merge: first insertion of a key",
-	"DET:(*check/results.FileResult).FindAllSymbol:loop3(map):keyed-write":   "accumulation, not selection: the entry of a protocol prefix collects the children seen so far; the final set of children is the same in any order (the order of a symbol list is not part of the answer)",
-	"DET:(*check/results.FileResult).FindAllSymbol:loop3(map):keyed-write#2": "same accumulation: first child of a prefix creates the entry",
 	"DET:(*check/common.AnnotateFile).GetBestFragementInfo:loop1(map):first-match":         "unique match: a source line belongs to at most one comment fragment (fragments are disjoint comment blocks, LineVec lists their own lines)",
 	"DET:(*check/common.ScopeInfo).FindTableKeyReferVarName:loop1(map):first-match":       "unique match: the test is containment of the cursor position (line, column) in the key's own source range; two table keys cannot occupy the same position",
 	"DET:(*check/common.ScopeInfo).GetTableKeyVar:loop1(map):first-match":                 "unique match: position-keyed (IsHasReferTableKey compares the key's source range with the cursor position)",
